@@ -5,6 +5,7 @@ import (
 	"encoding/json"
 	"errors"
 	"fmt"
+	"sync/atomic"
 	"unicode/utf8"
 
 	"github.com/matrix-org/gomatrixserverlib/spec"
@@ -17,6 +18,11 @@ type eventV2 struct {
 	eventV1
 	PrevEvents []string `json:"prev_events"`
 	AuthEvents []string `json:"auth_events"`
+
+	// eventIDCache holds the lazily computed event ID (a string). EventIDRaw is
+	// only written while the event is being constructed, so that EventID() can
+	// be called from several goroutines at once.
+	eventIDCache atomic.Value
 }
 
 func (e *eventV2) PrevEventIDs() []string {
@@ -68,11 +74,14 @@ func (e *eventV2) EventID() string {
 	if e.EventIDRaw != "" {
 		return e.EventIDRaw
 	}
+	if cached, ok := e.eventIDCache.Load().(string); ok {
+		return cached
+	}
 	ref, err := referenceOfEvent(e.eventJSON, e.roomVersion)
 	if err != nil {
 		panic(fmt.Errorf("failed to generate reference of event: %w", err))
 	}
-	e.EventIDRaw = ref.EventID
+	e.eventIDCache.Store(ref.EventID)
 	return ref.EventID
 }
 
